@@ -25,6 +25,11 @@ let rtriple = rs (fun ((y, m), d) -> zs [ y; m; d ])
 let leg parts = let l = List.concat parts in if List.mem "ub" l then "ub" else okl l
 let legc parts = let l = List.concat parts in if List.mem "ub" l then "ub" else if List.mem "contract" l then "contract" else okl l
 
+(* harness variant `nochk` (release build: TETL_PRECONDITION compiled out) sets C11_NOCHK=1 for the driver too:
+   the constructors only narrow (ModelRev.v) *)
+let nochk = (try Sys.getenv "C11_NOCHK" = "1" with Not_found -> false)
+let rzc checked released = if nochk then [ str_of_z released ] else rz checked
+
 let run_case2 op t =
   match op with
   | "year_arith" ->
@@ -59,15 +64,15 @@ let run_case2 op t =
       else (okl (bs (cmp6_m a b) @ zs [ day_diff_m a b ]), okl (bs (cmp6_spec a b) @ zs [ zsub a b ]))
   | "mctor" | "dctor" ->
       let v = next_z t in
-      let r = if op = "mctor" then month_ctor_m v else day_ctor_m v in
-      (legc [ rz r ], if in_u8 v then okl (zs [ v ]) else "na")
+      let r = if op = "mctor" then rzc (month_ctor_m v) (month_ctor_nc v) else rzc (day_ctor_m v) (day_ctor_nc v) in
+      (legc [ r ], if in_u8 v then okl (zs [ v ]) else "na")
   | "day_plus" ->
       let d = next_z t in let dd = next_z t in
-      let r = rz (day_plus_m d dd) in
+      let r = rzc (day_plus_m d dd) (day_plus_nc d dd) in
       (leg [ r; r ], if in_u8 (zadd d dd) then okl (zs [ zadd d dd; zadd d dd ]) else "na")
   | "day_minus" ->
       let d = next_z t in let dd = next_z t in
-      (leg [ rz (day_minus_days_m d dd) ], if in_u8 (zsub d dd) then okl (zs [ zsub d dd ]) else "na")
+      (leg [ rzc (day_minus_days_m d dd) (day_minus_days_nc d dd) ], if in_u8 (zsub d dd) then okl (zs [ zsub d dd ]) else "na")
   | "day_assign" ->
       let d = next_z t in let dd = next_z t in
       let one = zi 1 in
@@ -110,7 +115,7 @@ let run_case2 op t =
                      show (ymd_plus_years_m y m d dy); show (ymd_minus_years_m y m d dy) ] in
       let sp = [ ymd_plus_months_spec y m d dm; ymd_plus_months_spec y m d (Z.opp dm);
                  ymd_plus_years_spec y m d dy; ymd_plus_years_spec y m d (Z.opp dy) ] in
-      let p = if in_yr y && List.for_all (fun ((y', _), _) -> in_yr y') sp then
+      let p = if in_yr y && month_ok_spec m && List.for_all (fun ((y', _), _) -> in_yr y') sp then
           okl (List.concat_map (fun ((y', m'), d') -> zs [ y'; m'; d' ] @ bs [ date_exists y' m' d' ]) sp) else "na" in
       (ml, p)
   | "ymdl_bad" ->
@@ -129,15 +134,16 @@ let run_case2 op t =
       (okl (bs [ ymdl_ok_m y m ]), okl (bs [ year_ok_spec y && month_ok_spec m ]))
   | "ymdl_arith" | "ymwd_arith" | "ymwdl_arith" ->
       let y = next_z t in let m = next_z t in
-      if op <> "ymdl_arith" then ignore (next_z t);
-      if op = "ymwd_arith" then ignore (next_z t);
+      let w = if op <> "ymdl_arith" then next_z t else zi 0 in
+      let idx = if op = "ymwd_arith" then next_z t else zi 1 in
       let dm = next_z t in let dy = next_z t in
       let (f1, f2, f3, f4) =
         if op = "ymdl_arith" then (ymdl_plus_months_m, ymdl_minus_months_m, ymdl_plus_years_m, ymdl_minus_years_m)
         else (ymwd_plus_months_m, ymwd_minus_months_m, ymwd_plus_years_m, ymwd_minus_years_m) in
       let ml = leg [ rpair (f1 y m dm); rpair (f2 y m dm); rpair (f3 y m dy); rpair (f4 y m dy) ] in
       let (a1, b1) = year_month_plus_spec y m dm and (a2, b2) = year_month_plus_spec y m (Z.opp dm) in
-      let p = if List.for_all in_yr [ y; a1; a2; zadd y dy; zsub y dy ] then okl (zs [ a1; b1; a2; b2; zadd y dy; m; zsub y dy; m ]) else "na" in
+      let p = if month_ok_spec m && le w (zi 7) && le idx (zi 7) && List.for_all in_yr [ y; a1; a2; zadd y dy; zsub y dy ]
+              then okl (zs [ a1; b1; a2; b2; zadd y dy; m; zsub y dy; m ]) else "na" in
       (ml, p)
   | "ymwd_ok" ->
       let y = next_z t in let m = next_z t in let w = next_z t in let idx = next_z t in
@@ -150,7 +156,18 @@ let run_case2 op t =
         | Ok (((y, m), w), i) ->
             leg [ zs [ y; m; w; i ]; rs (fun b -> bs [ b ]) (ymwd_ok_m y m w i); rz (ymwd_to_days_m y m w i) ]
         | _ -> "ub" in
-      (ml, "na")
+      (* spec, checker style (the walker is unary): inside the supported years the model's year / month are accepted
+         only if z is the day number (textbook count) of an existing day d of that month; the expected leg is then
+         (y, m, weekday of z, (d-1)/7+1), ok() true, and the conversion back gives z *)
+      let p = if not (le (zi (-12687428)) z && le z (zi 11248737)) then "na" else
+        match ymwd_from_days_m z with
+        | Ok (((y, m), _), _) ->
+            let d = zadd (zsub z (days_spec y m (zi 1))) (zi 1) in
+            if date_exists y m d && zeq (days_spec y m d) z then
+              okl (zs [ y; m; weekday_of z; zadd (Z.div (zsub d (zi 1)) (zi 7)) (zi 1) ] @ bs [ true ] @ zs [ z ])
+            else "spec-rejects"
+        | _ -> "na" in
+      (ml, p)
   | "ymwd_to" ->
       let y = next_z t in let m = next_z t in let w = next_z t in let idx = next_z t in
       let c = weekday_ctor_m w in
@@ -174,7 +191,20 @@ let run_case2 op t =
       let r = rz (ymd_to_days_m y m d) in
       let s = zsub (zadd (days_spec y m (zi 1)) d) (zi 1) in
       (leg [ r; r ], if in_yr y && month_ok_spec m then okl (zs [ s; s ]) else "na")
-  | "civil_any" -> let z = next_z t in (opt3 (civil_from_days_m z), "na")
+  | "civil_any" ->
+      let z = next_z t in
+      (* spec, checker style, on the whole int32 domain: the stored year is the Gregorian year reduced to int16, so the
+         answer (y', m, d) is accepted iff for the one year Y = y' (mod 65536) next to the estimate 1970 + 400 z / 146097
+         the date Y-m-d exists and its textbook day number is z *)
+      let r = civil_from_days_m z in
+      let p = match r with
+        | Some ((y', m), d) ->
+            let est = zadd (zi 1970) (Z.div (Z.mul z (zi 400)) (zi 146097)) in
+            let k = Z.div (zadd (zsub est y') (zi 32768)) (zi 65536) in
+            let yy = zadd y' (Z.mul k (zi 65536)) in
+            if date_exists yy m d && zeq (days_spec yy m d) z then opt3 r else "spec-rejects"
+        | None -> "na" in
+      (opt3 r, p)
   | "days_raw" ->
       let y = next_z t in let m = next_z t in let d = next_z t in
       (leg [ rz (ymd_to_days_m y m d) ], "na")
@@ -201,11 +231,15 @@ let run_case2 op t =
               @ [ year_ctor_m (zi (-32767)); year_ctor_m (zi 32767); year_ctor_m (zi 2024) ] in
       let d31 = rz (day_ctor_m (zi 31)) in
       let s = okl (zs l @ d31 @ zs [ year_ctor_m (zi 40000) ]) in
+      (* spec: January..December = 1..12, Sunday..Saturday = 0..6, year::min / max, the literals; 40000_y is unspecified *)
       (s, "na")
   | "slash" ->
       let y = next_z t in let m = next_z t in let d = next_z t in
       let c = year_ctor_m y in
-      (legc [ zs [ c ]; rz (month_ctor_m m); rz (day_ctor_m d); zs [ c; m; m; m ] ], "na")
+      let mm = if nochk then month_ctor_nc m else m in
+      (legc [ zs [ c ]; rzc (month_ctor_m m) (month_ctor_nc m); rzc (day_ctor_m d) (day_ctor_nc d); zs [ c; mm; mm; mm ] ],
+       (* every operator/ spelling builds the object with exactly these fields *)
+       if in_yr y && in_u8 m && in_u8 d then okl (zs [ y; m; d; y; m; m; m ]) else "na")
   | _ -> raise Not_found
 
 let run_case op t =
@@ -233,35 +267,40 @@ let run_case op t =
   | "is_leap" -> let y = next_z t in (okb (is_leap_m y), okb (leap y))
   | "ymd_ok" ->
       let y = next_z t in let m = next_z t in let d = next_z t in
-      (okb (ymd_ok_m y m d), okb (date_exists y m d))
+      (okb (ymd_ok_m y m d), okb (year_ok_spec y && date_exists y m d))
   | "last_day" ->
       let y = next_z t in let m = next_z t in
-      (okz (last_day_of_month_m y m), okz (dim y m))
+      (* ymdl.day() runs the table-based detail::last_day_of_month (last_day_r); last_day_of_month_m is the helper of
+         ymd_ok_m and agrees with it for ok() months (C11_rev_every_stored_value) *)
+      ((match last_day_r y m with Ok v when zeq v (last_day_of_month_m y m) || not (month_ok_m m) -> okz v | Ok _ -> "model-helpers-differ" | _ -> "ub"),
+       if month_ok_spec m then okz (dim y m) else "na")
   | "month_plus" ->
       let m = next_z t in let dm = next_z t in (okz (month_plus_m m dm), okz (month_plus_spec m dm))
   | "month_minus" ->
-      let a = next_z t in let b = next_z t in (okz (month_minus_m a b), okz (month_minus_spec a b))
+      let a = next_z t in let b = next_z t in
+      (okz (month_minus_m a b), if month_ok_spec a && month_ok_spec b then okz (month_minus_spec a b) else "na")
   | "ym_plus" ->
       let y = next_z t in let m = next_z t in let dm = next_z t in
       let r = match year_month_plus_months_m y m dm with
         | Some (y', m') -> join [ "ok"; str_of_z y'; str_of_z m' ] | None -> "ub" in
       let (sy, sm) = year_month_plus_spec y m dm in
-      (r, join [ "ok"; str_of_z sy; str_of_z sm ])
+      (r, if in_yr y && month_ok_spec m && in_yr sy then join [ "ok"; str_of_z sy; str_of_z sm ] else "na")
   | "year_plus" ->
       let y = next_z t in let dy = next_z t in
       (optz (year_plus_m y dy), okz (Z.add y dy))
   | "wd_plus" ->
-      let w = next_z t in let d = next_z t in (okz (weekday_plus_m w d), okz (weekday_plus_spec w d))
+      let w = weekday_ctor_m (next_z t) in let d = next_z t in (okz (weekday_plus_m w d), okz (weekday_plus_spec w d))
   | "wd_minus" ->
-      let w = next_z t in let d = next_z t in
+      let w = weekday_ctor_m (next_z t) in let d = next_z t in
       (okz (weekday_minus_days_m w d), okz (weekday_plus_spec w (Z.opp d)))
   | "wd_incdec" ->
-      let w = next_z t in
+      let w = weekday_ctor_m (next_z t) in
       let p = weekday_plus_spec w (Zpos XH) in let q = weekday_plus_spec w (Zneg XH) in
       (join ("ok" :: List.map str_of_z (weekday_incdec_m w)),
        join ("ok" :: List.map str_of_z [p; p; w; p; q; q; w; q]))
   | "wd_diff" ->
-      let a = next_z t in let b = next_z t in (okz (weekday_diff_m a b), okz (weekday_diff_spec a b))
+      let a = weekday_ctor_m (next_z t) in let b = weekday_ctor_m (next_z t) in
+      (okz (weekday_diff_m a b), if weekday_ok_spec a && weekday_ok_spec b then okz (weekday_diff_spec a b) else "na")
   | "next_day" ->
       (* spec validation: civil(z+1) must be next_day(civil z) *)
       let z = next_z t in
